@@ -2253,24 +2253,17 @@ send_evical_vevent(int whither, echs_const_evstrm_t s)
 }
 
 static echs_instant_t
-instant_soup(echs_instant_t broth, echs_instant_t water, echs_tzob_t z, int eof)
+instant_soup(echs_instant_t broth, echs_instant_t water, echs_tzob_t z)
 {
 	echs_instant_t soup;
 	echs_tzob_t fz;
 
 	if (UNLIKELY(echs_instant_all_day_p(water))) {
-		/* oh we have to paste the missing intra
-		 * bits from the proto-event */
-		int fof;
-
-		water.intra = broth.intra;
-		fof = echs_instant_tzof(water, z);
-		soup = echs_instant_detach_tzob(water);
-
-		if (fof != eof) {
-			/* we need to add the discrepancy onto from */
-			soup = echs_tzob_shift(soup, fof, eof);
-		}
+		/* oh we have to paste the missing intra bits from the
+		 * proto-event, i.e. its wall-clock time in Z on day WATER */
+		water = echs_instant_detach_tzob(water);
+		water.intra = echs_instant_loc(broth, z).intra;
+		soup = echs_instant_utc(water, z);
 	} else if (UNLIKELY((fz = echs_instant_tzob(water)))) {
 		soup = echs_instant_utc(water, fz);
 	} else {
@@ -2287,7 +2280,6 @@ __make_evrdat(echs_event_t e, const echs_instant_t *d, size_t nd)
 	const size_t zev = nd * sizeof(*res->ev);
 	echs_scale_t cal;
 	echs_tzob_t z;
-	int eof;
 
 	if (nd == 0U) {
 		/* not worth it */
@@ -2302,11 +2294,10 @@ __make_evrdat(echs_event_t e, const echs_instant_t *d, size_t nd)
 	e.from = echs_instant_rescale(e.from, SCALE_GREGORIAN);
 	z = echs_instant_tzob(e.from);
 	e.from = echs_instant_to_utc(e.from);
-	eof = echs_instant_tzof(e.from, z);
 
 	if (nd == 1U) {
 		/* no need to sort things, just spread the one instant */
-		e.from = instant_soup(e.from, d[0U], z, eof);
+		e.from = instant_soup(e.from, d[0U], z);
 		e.from = echs_instant_rescale(e.from, cal);
 		res->ev[0U] = e;
 	} else {
@@ -2321,7 +2312,7 @@ __make_evrdat(echs_event_t e, const echs_instant_t *d, size_t nd)
 		 * before the actual sorting because in rare cases timezone
 		 * changes can actually change the order */
 		for (size_t i = 0U; i < nd; i++) {
-			rd[i] = instant_soup(e.from, d[i], z, eof);
+			rd[i] = instant_soup(e.from, d[i], z);
 		}
 		/* now sort */
 		echs_instant_sort(rd, nd);
